@@ -718,8 +718,42 @@ pub fn stress_shapes(thorough: bool) -> Vec<(String, Vec<u8>)> {
         b.extend(frame_bytes(&[simple_layer(0, LayerKind::Image, 1), chunk(cel_chunk(&cel, None, &mut None))], 1));
         v.push((name.into(), b));
     }
+    // long runs: more than 65536 user data chunks after each kind of entity (counters that follow the records),
+    // and more than 65536 chunks of each small kind in one frame
+    {
+        let ud = chunk(user_data_chunk(&UserData { text: Some("u".into()), color: None }));
+        let one_tag = [Tag { from: 0, to: 0, dir: 0, repeat: 0, name: "t".into() }];
+        let starters: Vec<(&str, Vec<Vec<u8>>)> = vec![
+            ("layer", vec![simple_layer(0, LayerKind::Image, 1)]),
+            ("cel", vec![simple_layer(0, LayerKind::Image, 1), image_cel(0, 1, 1, vec![1, 2, 3, 4], None)]),
+            ("slice", vec![chunk(slice_chunk(&Slice { name: "s".into(), flags: 0, keys: vec![], user_data: None }, &mut None))]),
+            ("tags", vec![chunk(tags_chunk(&one_tag, &mut None))]),
+            ("legacy-palette", vec![chunk(legacy_chunk(&LegacyPalette { kind: 4, packets: vec![LegacyPacket { skip: 0, colors: vec![[1, 2, 3]] }] }))]),
+        ];
+        for (name, start) in starters {
+            let mut chunks = start;
+            for _ in 0..65540 {
+                chunks.push(ud.clone());
+            }
+            let mut b = header_bytes(1, 2, 2, 32);
+            b.extend(frame_bytes(&chunks, 1));
+            v.push((format!("user-data-x65540-after-{}", name), b));
+        }
+        let repeated: Vec<(&str, Vec<u8>)> = vec![
+            ("slice", chunk(slice_chunk(&Slice { name: "s".into(), flags: 0, keys: vec![], user_data: None }, &mut None))),
+            ("tags", chunk(tags_chunk(&one_tag, &mut None))),
+            ("palette", chunk(palette_chunk(&NewPalette { first: 0, entries: vec![PalEntry { rgba: [9, 9, 9, 255], name: None }] }, &mut None))),
+            ("legacy-palette", chunk(legacy_chunk(&LegacyPalette { kind: 4, packets: vec![LegacyPacket { skip: 0, colors: vec![[1, 2, 3]] }] }))),
+        ];
+        for (name, c) in repeated {
+            let chunks: Vec<Vec<u8>> = (0..65540).map(|_| c.clone()).collect();
+            let mut b = header_bytes(1, 2, 2, 32);
+            b.extend(frame_bytes(&chunks, 1));
+            v.push((format!("{}-chunks-x65540", name), b));
+        }
+    }
     // table amplification: cels at a high layer index in many frames, layers declared or not
-    for (declare, nl, nf) in [(false, 65535usize, 64usize), (true, 2000, 400), (true, if thorough { 9000 } else { 6500 }, if thorough { 9000 } else { 6500 })] {
+    for (declare, nl, nf, cel_layer_zero) in [(false, 65535usize, 64usize, false), (true, 2000, 400, false), (true, if thorough { 9000 } else { 6500 }, if thorough { 9000 } else { 6500 }, false), (true, 8000, 8000, true)] {
         let mut b = header_bytes(nf as u16, 1, 1, 32);
         for f in 0..nf {
             let mut chunks = vec![];
@@ -729,13 +763,13 @@ pub fn stress_shapes(thorough: bool) -> Vec<(String, Vec<u8>)> {
                 }
             }
             if f == 0 {
-                chunks.push(image_cel((nl - 1) as u16, 1, 1, vec![1, 2, 3, 4], None));
+                chunks.push(image_cel(if cel_layer_zero { 0 } else { (nl - 1) as u16 }, 1, 1, vec![1, 2, 3, 4], None));
             } else {
-                chunks.push(chunk(cel_chunk(&Cel { layer: (nl - 1) as u16, x: 0, y: 0, opacity: 255, content: CelContent::Link { frame: 0 }, user_data: None }, None, &mut None)));
+                chunks.push(chunk(cel_chunk(&Cel { layer: if cel_layer_zero { 0 } else { (nl - 1) as u16 }, x: 0, y: 0, opacity: 255, content: CelContent::Link { frame: 0 }, user_data: None }, None, &mut None)));
             }
             b.extend(frame_bytes(&chunks, 1));
         }
-        v.push((format!("cel-table-{}x{}-{}", nl, nf, if declare { "declared" } else { "undeclared" }), b));
+        v.push((format!("cel-table-{}x{}-{}{}", nl, nf, if declare { "declared" } else { "undeclared" }, if cel_layer_zero { "-cels-on-layer-0" } else { "" }), b));
     }
     // declared sizes far beyond the payload
     {
